@@ -20,7 +20,7 @@ RULE = ("a case is (hash algorithm, secret p as text or bytes - empty, Unicode, 
         "dumps/loads in every format so the same challenges keep their outcome, and a plaintext written by hand into "
         "a document is hashed on load; non-trivial = non-empty p with >= 3 near misses judged; distinct = distinct "
         "case content")
-REQUIRED = ("secrets_of_round_sizes", "secrets_of_whole_mebibytes", "secrets_shaped_like_references", "printed_forms_parsed_back", "byte_secrets_that_are_not_utf8", "digest_values_with_other_salt_length", "plaintext_in_included_file_hashed", "same_field_reassignments", "env_bound_unset_variable", "reset_default_checks", "bulk_list_salt_checks", "digests_recomputed", "fresh_salt_checks", "challenge_accepts_p", "challenge_rejects_q", "leak_scans_memory",
+REQUIRED = ("digest_values_made_with_a_chosen_salt", "chosen_salts_refused", "secrets_of_round_sizes", "secrets_of_whole_mebibytes", "secrets_shaped_like_references", "printed_forms_parsed_back", "byte_secrets_that_are_not_utf8", "digest_values_with_other_salt_length", "plaintext_in_included_file_hashed", "same_field_reassignments", "env_bound_unset_variable", "reset_default_checks", "bulk_list_salt_checks", "digests_recomputed", "fresh_salt_checks", "challenge_accepts_p", "challenge_rejects_q", "leak_scans_memory",
             "leak_scans_documents", "roundtrips_digest_unchanged", "plaintext_in_document_hashed", "alg:md5", "alg:sha1",
             "alg:sha224", "alg:sha256", "alg:sha384", "alg:sha512")
 ASSUMPTIONS = ["hashlib is the reference implementation of the six algorithms", "documents are produced/decoded with the "
@@ -199,6 +199,29 @@ def run(case, ctx, res):
             return cfg.items[0].pw
         return cfg.pws[0]
 
+    # digest values made with a salt of the caller's choosing (how an application prepares a default): whatever salt the
+    # value ends up with, its digest is the hash of that salt and the secret, and the secret passes the challenge
+    size0 = ALGS[alg]
+    for n in (size0, size0 + 8, 2 * size0, size0 - 1, 1):
+        chosen = bytes((11 * i + n + len(pb)) % 256 for i in range(n))
+        try:
+            made = cc.DigestValue.create(p, cc.ChallengeField.ALGORITHMS[alg], salt=chosen)
+        except TypeError:
+            res.count("chosen_salts_refused")
+            continue
+        except Exception as exc:
+            res.viol("M-digest", "chosen-salt-raises:" + alg, "DigestValue.create with a %d-byte salt raised %r" % (n, exc))
+            return
+        res.count("digest_values_made_with_a_chosen_salt")
+        if hashlib.new(alg, bytes(made.salt) + pb).digest() != bytes(made.digest) or not chosen.startswith(bytes(made.salt)) or not made.salt:
+            res.viol("M-digest", "chosen-salt-digest:" + alg, "DigestValue.create with a %d-byte salt gives salt %s / digest %s, which is not "
+                     "%s(salt || p)" % (n, bytes(made.salt).hex()[:16], bytes(made.digest).hex()[:16], alg))
+            return
+        try:
+            made.challenge(p)
+        except Exception as exc:
+            res.viol("M-challenge", "rejects-the-secret:chosen-salt:" + alg, "challenge(p) on a value made with a chosen salt raised %r" % (exc,))
+            return
     try:
         cfg1, cfg2 = build(), build()
     except UnicodeDecodeError:
